@@ -389,17 +389,17 @@ type Exec struct {
 	fresh    int
 	names    map[string]int
 
-	res      *PathResult
-	harness  string
-	ghostT   int64
-	lastNow  *smt.Term
-	idleHook value
-	inHook   bool
-	co       *coopState
+	res        *PathResult
+	harness    string
+	ghostT     int64
+	lastNow    *smt.Term
+	idleHook   value
+	inHook     bool
+	co         *coopState
 	panicStack string
-	interp   *interpreter
-	model    map[string]uint64 // an assignment known to satisfy pc (nil if none is known)
-	redir    map[string]*ssa.Function
+	interp     *interpreter
+	model      map[string]uint64 // an assignment known to satisfy pc (nil if none is known)
+	redir      map[string]*ssa.Function
 }
 
 type spawn struct {
@@ -756,6 +756,7 @@ type RunOpts struct {
 	Redirect          map[string]*ssa.Function // callee full name -> harness model (go-model stubs)
 	BlockIsViolation  bool                     // a goroutine blocked forever is reported as violation "no-deadlock" instead of inconclusive
 	Coop              bool                     // cooperative goroutines (sched.go)
+	Deviate           int                      // schedule exploration: hand-overs that may deviate from round robin
 	UnwindIsViolation bool                     // exceeding the instruction budget is reported as violation "no-livelock"
 }
 
@@ -803,7 +804,7 @@ func (p *Program) RunPath(fn *ssa.Function, prefix []Decision, c *smt.Ctx, s *sm
 	}
 
 	if o.Coop {
-		x.enableCoop()
+		x.enableCoop(o.Deviate)
 	}
 	defer func() {
 		x.endCoop()
